@@ -1464,6 +1464,12 @@ def py_format(ev, spec_template, args, node, fr):
             if a.expr == 0 and a.tag == "negzero":
                 import decimal
                 vals.append(decimal.Decimal("-0"))
+            elif a.expr.is_real is False and a.expr.as_real_imag()[1] != 0:
+                # a complex double: Python formats the two parts separately ('0.000+1.250j'); both parts are doubles here
+                re_, im_ = a.expr.as_real_imag()
+                if to_decimal(re_) is None or to_decimal(im_) is None:
+                    ev.unsupported("formatting a complex number whose parts are not doubles", node, fr)
+                vals.append(complex(float(re_), float(im_)))
             elif a.expr.is_Integer and not a.isfloat:
                 vals.append(int(a.expr))
             elif a.expr.is_Integer:
